@@ -13,15 +13,15 @@ T = {
          'fkG0/fkG0y1y2 proved equal to the Hessian of the pre-stress work; fkG_num proved equal to the point-wise image with N = A eps + B kappa of the extracted strain accumulators; dispatch rules on Panel.calc_kG0/lb.',
          'C10; exactness of a chosen Gauss order is not decided', '3/C03'),
  'C04': ('proof', 'polynomial normal forms; sign-convention agreement across call sites',
-         'fkM/fkMy1y2 proved equal to the kinetic-energy Hessian under the kernel\'s own offset convention; the convention is compared with the laminate offset convention at the Panel.calc_kM call sites (known finding F-C04-1).',
+         'fkM/fkMy1y2 proved equal to the kinetic-energy Hessian under the kernel\'s own offset convention; the convention is compared with the laminate offset convention at the Panel.calc_kM call sites (F-C04-1, repaired in /repo).',
          'C10; C01 offset convention', '3/C04'),
- 'C05': ('other', 'sibling cross-check + CFG must-pass-through on solver pencil/transform, reduce/expand pairing',
+ 'C05': ('other', 'sibling cross-check + CFG must-pass-through on solver pencil/transform, reduce/expand pairing; flow-sensitive value sets for remove_null_cols; documented load-case table vs pencil',
          'necessary structural clauses of the buckling solver (pencil roles and eigenvalue transform, null-column reduction/expansion pairing, column agreement) on the three sibling implementations; accuracy/order of ARPACK/LAPACK results is NOT decided.',
          'scipy eigsh/eigh semantics as documented', '3/C05'),
- 'C06': ('other', 'CFG typestate (LIFO of reductions), sibling cross-check',
+ 'C06': ('other', 'CFG typestate (LIFO of reductions), sibling cross-check; flow-sensitive value sets for remove_null_cols',
          'necessary structural clauses of the frequency solver: pencil/transform table, LIFO undo of reductions, one permutation/mask applied to values and vectors; numerical accuracy NOT decided.',
          'scipy eigs/eig semantics as documented', '3/C06'),
- 'C07': ('other', 'linear-form agreement between field and shape-function kernels; layout domain; call binding',
+ 'C07': ('other', 'linear-form agreement between field and shape-function kernels; layout domain; call binding; flow-sensitive value sets for solve/static',
          'fext.c = sum force*reported displacement follows from the proved agreement cfg <-> cfuvw; offsets/inc/dispatch rules on calc_fext of Panel, PanelAssembly, StiffPanelBay; sparse.solve reduce/scatter pairing. spsolve accuracy NOT decided.',
          'C10 function tables', '3/C07'),
  'C08': ('proof', 'symbolic differentiation of extracted polynomials (Jacobian identity between code artefacts)',
@@ -34,10 +34,10 @@ T = {
          'all 180 function entries, 17 integral tables x 900 index pairs (absent cases included), 63 Gauss rules (all moments k<=2n-1, 110-digit decimal arithmetic), header/extern signatures and the trapezoid/Simpson point sets are verified against exact oracles.',
          'C compiler evaluates the parsed arithmetic faithfully; 15-digit literals compared with rtol 1e-11', '3/C10'),
  'C11': ('proof', 'linear-form extraction of series loops; series-loop linearity rule; prange effect analysis',
-         'field kernels proved to be the Ritz series / strain table; NL terms must be formed from accumulated slopes (known finding F-C11-1); stress = F.strain table, option forwarding, chunking/prange write-disjointness, slices per assembly group.',
+         'field kernels proved to be the Ritz series / strain table; NL terms must be formed from accumulated slopes (F-C11-1, repaired in /repo); stress = F.strain table, option forwarding, chunking/prange write-disjointness, slices per assembly group.',
          'C10 function tables', '3/C11'),
  'C12': ('proof', 'polynomial normal forms vs interface jump tables; call binding and placement rules',
-         'all 15 connection kernels proved equal to the Hessian of kt/2 int|jump|^2 + kr/2 int rot^2; dispatch/placement/triangle rule on get_k0_conn (known finding F-C12-1); calc_kt_kr symmetric and degree-1.',
+         'all 15 connection kernels proved equal to the Hessian of kt/2 int|jump|^2 + kr/2 int rot^2; dispatch/placement/triangle rule on get_k0_conn (F-C12-1, repaired in /repo); calc_kt_kr symmetric and degree-1.',
          'C10', '3/C12'),
  'C13': ('other', 'linear layout domain (sums of get_size terms) + sibling agreement of consumers',
          'offset bookkeeping of PanelAssembly and StiffPanelBay: one layout extracted from calc_k0, every other consumer must agree; stiffener kernels as Gram forms.',
